@@ -5,16 +5,19 @@ class C09(Spec):
     prop = "C09"
     drv = "drv_c09"
     harness = "h_c09"
+    lean_deps = ("C06", "C07")
     required_theorems = (
         "C09.pad_order",
         "C09.getV_correct_partial", "C09.getV_correct_full_false", "C09.getV_correct_sepfree_false",
         "C09.delTop_restores", "C09.delTop_restores_state", "C09.applyAdd_wf", "C09.fresh_of_below", "C09.history_wf",
         "C09.trash_keeps_newest", "C09.trash_removes_iff", "C09.old_trash_removes_newest",
         "C09.iadd_keeps_last", "C09.idel_restores_last_partial",
+        "C09.getV_seek_is_list_seek", "C09.add_records_version", "C09.stateGet_correct_partial", "C09.stateGet_correct_full_false",
+        "C09.specResult_stable_under_add",
         "C09.idel_restores_last_full_false_version0", "C09.idel_restores_last_full_false_foreign",
     )
-    partial = ("C09.getV_correct_partial", "C09.idel_restores_last_partial")
-    refuted = ("C09.getV_correct_full_false", "C09.getV_correct_sepfree_false",
+    partial = ("C09.getV_correct_partial", "C09.idel_restores_last_partial", "C09.stateGet_correct_partial")
+    refuted = ("C09.getV_correct_full_false", "C09.getV_correct_sepfree_false", "C09.stateGet_correct_full_false",
                "C09.idel_restores_last_full_false_version0", "C09.idel_restores_last_full_false_foreign")
     level_text = ("Lean theorems about a byte-exact model of the MVCC data region (GetKey/pad, reverse prefix seek of GetV, "
                   "AddMVCC/DelMVCC, Trash/cutVersion/getVersion): 20-digit padding is an order isomorphism; removing the top "
@@ -31,6 +34,9 @@ class C09(Spec):
         "goleveldb/memdb iterators over [prefix, bytesPrefix(prefix)) behave as an ordered map (C06)",
         "state hashes are >= 16 bytes so that the three meta key families do not collide",
         "versions are non-negative and below 2^63",
+        "Trash deletes while its reverse iterator is open; the model scans a snapshot and deletes afterwards - exact for "
+        "goleveldb (snapshot iterators) and observed identical on GoMemDB (live skiplist: a deleted node is re-sought by key) "
+        "in every differential run (stat trash_on_memdb), not proved",
         "StateDB.enableMVCC is reached by a pull-only go:linkname from the harness (no hook file in /repo)",
     )
 
